@@ -17,13 +17,14 @@ MTypes == {"n0", "n1", "n7"}
 CONSTANTS NFuzz      \* number of fuzz seeds
 
 \* (nested quantifiers rather than one big set of steps: TLC would normalise the set)
-TakeF(st) == Do(st) /\ hist' = Append(hist, st)
+TakeF(st) == Do(st) /\ hist' = Append(hist, st) /\ nw' = nw /\ fin' = FALSE
 FNext ==
-  /\ Len(hist) < MaxD
-  /\ \/ \E f \in {"leaf", "wrap", "multi"} : \E k \in Forms[f] : \E p \in PayKinds : \E pos \in Positions :
+  \/ Finish
+  \/ /\ Len(hist) < MaxD
+     /\ \/ \E f \in {"leaf", "wrap", "multi"} : \E k \in Forms[f] : \E p \in PayKinds : \E pos \in Positions :
           \E d \in NDet : \E m \in MTypes :
-            TakeF(Step("DecodeFault", 1, E, <<k>>, <<<<f>>, <<p>>, <<pos>>, <<d>>, <<m>>>>, E, 0, E))
-     \/ \E n \in 1..NFuzz : TakeF(Step("DecodeFuzz", 1, E, E, E, E, n, E))
+               TakeF(Step("DecodeFault", 1, E, <<k>>, <<<<f>>, <<p>>, <<pos>>, <<d>>, <<m>>>>, E, 0, E))
+        \/ \E n \in 1..NFuzz : TakeF(Step("DecodeFuzz", 1, E, E, E, E, n, E))
 FSpec == GInit /\ [][FNext]_vars
 
 \* design level: the model's decoder is total on every faulty message (a
